@@ -362,12 +362,56 @@ async def transfer_history(directed=False):
         shutil.rmtree(root, ignore_errors=True)
 
 
+async def directed_chain():
+    """three copies on three locations related through one of them: relate A(a) with B(b), then A with C(c).  Every registration known at
+    the source path takes part in a relation, so B and C end up knowing each other (the copies are the same data)"""
+    workdir = tempfile.mkdtemp(prefix="c21c.")
+    ctx = build_context({"database": {"type": "default", "config": {"connection": ":memory:"}}, "path": workdir})
+    try:
+        dm = ctx.data_manager
+        locs = [ExecutionLocation(name=n, deployment=f"dep{n.upper()}") for n in ("a", "b", "c")]
+        paths = ["/d/e", "/d/f", "/e/f"]
+        model = Model()
+        real, objs = [], []
+        for loc, pth in zip(locs, paths):
+            real.append(dm.register_path(loc, pth))
+            objs.append(model.register(key(loc), pth))
+        for j in (1, 2):
+            dm.register_relation(real[0], real[j])
+            model.relate(objs[0], objs[j])
+        if rng.random() < 0.5:
+            dm.invalidate_location(locs[0], "/d/e")
+            model.invalidate(key(locs[0]), "/d/e")
+        for node in sorted(model.refs):
+            for loc in locs + [None]:
+                if loc is None:
+                    got = sorted(((l.deployment, l.name), l.path) for l in dm.get_data_locations(node))
+                    want = model.reported(node)
+                else:
+                    got = sorted(((l.deployment, l.name), l.path) for l in dm.get_data_locations(node, deployment=loc.deployment, location_name=loc.name))
+                    want = model.reported(node, key(loc))
+                if sorted(set(got)) != sorted(set(want)):
+                    return {"failure": "reported data locations differ from the reference model after a chain of relations (A-B, then A-C)", "path": node,
+                            "location": str(key(loc)) if loc else "any", "reported": got, "expected": want}
+        return None
+    finally:
+        await ctx.close()
+        try:
+            os.rmdir(workdir)
+        except OSError:
+            pass
+
+
 async def search(n):
     bad = await interleaved_source()
     if bad:
         return bad
     if await directed_duplicate():
         KNOWN.add("KF-C21-duplicate-registration")
+    for _ in range(2):
+        bad = await directed_chain()
+        if bad:
+            return bad
     for i in range(max(6, n // 8)):
         bad = await transfer_history(directed=(i == 0))
         if bad:
